@@ -68,7 +68,13 @@ pub fn run(args: &Args) {
             let names: Vec<&str> = pest::unicode::unicode_property_names().collect();
             let mut body: Option<pest_meta::ast::Expr> = None;
             for _ in 0..1 + grng.below(4) {
-                let id = pest_meta::ast::Expr::Ident(names[grng.below(names.len())].to_string());
+                let mut id = pest_meta::ast::Expr::Ident(names[grng.below(names.len())].to_string());
+                if grng.chance(1, 3) {
+                    // a class difference / intersection: `!A ~ B`, `&A ~ B`
+                    let other = Box::new(pest_meta::ast::Expr::Ident(names[grng.below(names.len())].to_string()));
+                    let pred = if grng.chance(2, 3) { pest_meta::ast::Expr::NegPred(other) } else { pest_meta::ast::Expr::PosPred(other) };
+                    id = pest_meta::ast::Expr::Seq(Box::new(pred), Box::new(id));
+                }
                 body = Some(match body {
                     None => id,
                     Some(b) => {
@@ -80,7 +86,12 @@ pub fn run(args: &Args) {
                     }
                 });
             }
-            rules.push(pest_meta::ast::Rule { name: "uni".into(), ty: pest_meta::ast::RuleType::Normal, expr: pest_meta::ast::Expr::RepOnce(Box::new(body.unwrap())) });
+            let uty = *grng.pick(&[pest_meta::ast::RuleType::Normal, pest_meta::ast::RuleType::Normal, pest_meta::ast::RuleType::Atomic, pest_meta::ast::RuleType::CompoundAtomic, pest_meta::ast::RuleType::NonAtomic]);
+            let ubody = if grng.chance(1, 2) { pest_meta::ast::Expr::RepOnce(Box::new(body.unwrap())) } else { body.unwrap() };
+            rules.push(pest_meta::ast::Rule { name: "uni".into(), ty: uty, expr: ubody });
+            if !rules.iter().any(|r| r.name == "WHITESPACE") && grng.chance(1, 2) {
+                rules.push(pest_meta::ast::Rule { name: "WHITESPACE".into(), ty: pest_meta::ast::RuleType::Silent, expr: pest_meta::ast::Expr::Str(" ".into()) });
+            }
         }
         let mut forced_input: Option<String> = None;
         let mut family = family;
